@@ -5,7 +5,7 @@ import subprocess
 HERE = os.path.dirname(os.path.abspath(__file__))
 
 
-def compile_and_run(workdir: str, header_text: str, main_body: str, name: str = 'case', timeout: int = 300) -> dict:
+def compile_and_run(workdir: str, header_text: str, main_body: str, name: str = 'case', timeout: int = 300, run_timeout: int = 20) -> dict:
 	"""Writes <name>.h (emitted text) and <name>.cpp (prelude + header + main), compiles with clang++, runs.
 	Returns {'compiled': bool, 'stderr': str, 'stdout': str, 'rc': int}"""
 	os.makedirs(workdir, exist_ok=True)
@@ -19,7 +19,15 @@ def compile_and_run(workdir: str, header_text: str, main_body: str, name: str = 
 	cc = subprocess.run(['clang++', '-std=c++20', '-O0', '-w', '-o', exe, cpath], capture_output=True, text=True, timeout=timeout)
 	if cc.returncode != 0:
 		return {'compiled': False, 'stderr': cc.stderr[-2000:], 'stderr_full': cc.stderr, 'stdout': '', 'rc': cc.returncode}
-	run = subprocess.run([exe], capture_output=True, text=True, timeout=timeout)
+	try:
+		run = subprocess.run([exe], capture_output=True, text=True, timeout=run_timeout)
+	except subprocess.TimeoutExpired as e:
+		out = e.stdout.decode() if isinstance(e.stdout, bytes) else (e.stdout or '')
+		try:
+			os.unlink(exe)
+		except OSError:
+			pass
+		return {'compiled': True, 'stderr': 'timeout', 'stdout': out, 'rc': -9, 'timeout': True}
 	for p in (exe,):
 		try:
 			os.unlink(p)
